@@ -9,3 +9,5 @@ import (
 )
 
 func verifSysctl(t *testing.T, r *vfh.Rand, out *vfh.Out) {}
+
+func verifSysctlConc(t *testing.T, r *vfh.Rand, out *vfh.Out) {}
